@@ -3,7 +3,7 @@
    documented semantics covers the file.  RefineProps.evalP_refines (memo-free evaluator ⊑ Spec) composed with
    MemoProps.evalN_sim (SEval computes what the memo-free evaluator computes). *)
 From GV.Model Require Import SEval PEval Spec CheckSpec.
-From GV.Proofs Require Import EvalLaws FrameProps MemoProps RuleOrderProps RefineOps RefineProps.
+From GV.Proofs Require Import EvalLaws FrameProps MemoProps MemoErr RuleOrderProps RefineOps RefineProps.
 From Coq Require Import Lia.
 Local Open Scope nat_scope.
 
@@ -330,6 +330,41 @@ Theorem refinement_memo_free k m :
 Proof.
   pose proof (peval_file_refines re conv lit_ok prog doc G W_list W_map W_wf W_alias W_notin W_doc W_lit k m) as R.
   destruct (eval_file' re conv prog k doc) as [[[st r1] s1]| | | |], (spec_file re lit_ok prog doc m) as [[st' table]| |]; cbn in R; auto.
+Qed.
+
+(* C01, Err / SOk: an evaluation error of the evaluator WITH its caches never meets a defined verdict of the documented
+   semantics (the failure direction of the memo simulation, MemoErr.v, composed with the refinement of the memo-free
+   evaluator) *)
+Theorem refinement_errors n m e :
+  nc_prog prog = true ->
+  eval_file re conv prog n doc = Err e ->
+  match spec_file re lit_ok prog doc m with
+  | SOk _ => False
+  | _ => True
+  end.
+Proof.
+  intros Hnc H. destruct (eval_file_error_memo_free re conv prog n doc e Hnc H) as [k0 Hk]. specialize (Hk k0 (le_n k0)).
+  pose proof (refinement_memo_free k0 m) as R. rewrite Hk in R.
+  destruct (spec_file re lit_ok prog doc m) as [[st' table]| |]; [exact R|exact I|exact I].
+Qed.
+
+(* both directions at once, for the evaluator with its caches: whatever SEval answers, the documented semantics - where
+   it covers the file - agrees: a status with the same status (and rule table), an error with "undefined" *)
+Theorem refinement_total n m :
+  nc_prog prog = true ->
+  match eval_file re conv prog n doc, spec_file re lit_ok prog doc m with
+  | Done (st, recs, _), SOk (st', table) => st = st' /\ exists rec, recs = [rec] /\ compare_rules table (rule_statuses rec) = None
+  | Done _, SUndef => False
+  | Err _, SOk _ => False
+  | _, _ => True
+  end.
+Proof.
+  intros Hnc. destruct (eval_file re conv prog n doc) as [[[st recs] s']|e| | |] eqn:E.
+  - pose proof (refinement n m st recs s' Hnc E) as R. destruct (spec_file re lit_ok prog doc m) as [[st' table]| |]; exact R.
+  - pose proof (refinement_errors n m e Hnc E) as R. destruct (spec_file re lit_ok prog doc m) as [[st' table]| |]; exact R.
+  - destruct (spec_file re lit_ok prog doc m) as [[? ?]| |]; exact I.
+  - destruct (spec_file re lit_ok prog doc m) as [[? ?]| |]; exact I.
+  - destruct (spec_file re lit_ok prog doc m) as [[? ?]| |]; exact I.
 Qed.
 
 End World.
